@@ -15,7 +15,7 @@ func ruleC18(prog *Program, rep *Report) {
 	rep.Explain("C18 decides the deep-copy discipline of the copying operations (alt.Dup/Decompose through their recursive worker, alt.Generify for simple containers, Dup and Simplify of gen.Array and gen.Object; the in-place Alter/GenAlter are exempt by documentation): in every arm or method that copies a container, the result is a freshly allocated container on every path (no early exit that leaves the original in the result), elements are stored through a copying call and never as the range value itself, and the receiver or input is never reinterpreted with unsafe. Also kind parity: every simple kind handled by the decomposing switch is handled by the generifying switch. Not covered: value preservation (time, big numbers), writer text equality, gen.Parser versus Generify of oj.Parser beyond C03's event agreement.")
 	rep.Rules = append(rep.Rules,
 		"D-fresh: in each slice/map arm of the type switch of a copying function the result variable is assigned on every path that leaves the arm (break and fall-through), and only from a container allocated in that arm (make or composite literal)",
-		"D-elem: no element store of a copying arm or method (x[i] = e, x[k] = e, append(x, e), helper(x, k, e)) has the loop's range value itself as e: elements pass through a copying call or a conversion of a scalar",
+		"D-elem: no element store of a copying arm or method (x[i] = e, x[k] = e, append(x, e), helper(x, k, e)) has the loop's range value itself as e: elements pass through the copying function itself, one of the other checked copying functions (Decompose, Generify, Dup, Simplify) or a conversion of a scalar - not through an in-place sibling such as alter",
 		"D-unsafe: copying methods of gen.Array / gen.Object (Dup, Simplify) do not use package unsafe")
 	arms := 0
 	arms += copySwitchArms(prog, rep, "alt", "decompose")
@@ -26,6 +26,7 @@ func ruleC18(prog *Program, rep *Report) {
 	}
 	ruleKindParity(prog, rep)
 	ruleTwins(prog, rep)
+	ruleCursorAdvance(prog, rep) // two objects of one document must not be the same recycled map
 	rep.Rules = append(rep.Rules, "A-events: gen.Parser and oj.Parser emit the same value events as the reference at every byte and never append to a consumed scratch buffer (see C03/C07): the structural part of 'gen.Parser output equals Generify of oj.Parser output'")
 	results := exploreFrontEnds(prog, []feSpec{jsonFrontEnds[0], jsonFrontEnds[3]}, []bool{false}, false)
 	applyParseResults(rep, results, union(kindsEvents, kindsAccept, map[string]bool{"stale-scratch": true}), "A-events", 18)
@@ -138,6 +139,69 @@ func armAssigns(info *types.Info, list []ast.Stmt, result types.Object, fresh ma
 }
 
 // shallowStores: element stores whose value is a loop's range value itself.
+// copyingCallees: the functions an element of a copy may pass through (each is itself checked by D-fresh / D-elem,
+// or is the element's own copying method).
+var copyingCallees = map[string]bool{"decompose": true, "Decompose": true, "Generify": true, "Dup": true, "Simplify": true, "Generic": true}
+
+// nonCopyingElementCalls: in the loops of a copying arm, a call of a function of the same package that takes the
+// loop's range value and returns something that can hold a container, and that is neither the copying function
+// itself nor one of the copying callees: the in-place sibling (alter) returns its argument, so the "copy" shares it.
+func nonCopyingElementCalls(info *types.Info, pkg *types.Package, node ast.Node, self types.Object) (out []token.Pos, names []string) {
+	ast.Inspect(node, func(n ast.Node) bool {
+		rs, ok := n.(*ast.RangeStmt)
+		if !ok || rs.Value == nil {
+			return true
+		}
+		val := info.Defs[identOf(rs.Value)]
+		if val == nil {
+			return true
+		}
+		switch val.Type().Underlying().(type) {
+		case *types.Interface, *types.Map, *types.Slice:
+		default:
+			return true
+		}
+		ast.Inspect(rs.Body, func(k ast.Node) bool {
+			call, ok := k.(*ast.CallExpr)
+			if !ok {
+				return true
+			}
+			takes := false
+			for _, a := range call.Args {
+				if useObj(info, a) == val {
+					takes = true
+				}
+			}
+			if !takes {
+				return true
+			}
+			var callee types.Object
+			switch fn := ast.Unparen(call.Fun).(type) {
+			case *ast.Ident:
+				callee = info.Uses[fn]
+			case *ast.SelectorExpr:
+				callee = info.Uses[fn.Sel]
+			}
+			f, ok := callee.(*types.Func)
+			if !ok || f.Pkg() != pkg || f == self || copyingCallees[f.Name()] {
+				return true
+			}
+			sig := f.Type().(*types.Signature)
+			if sig.Results().Len() != 1 {
+				return true
+			}
+			switch sig.Results().At(0).Type().Underlying().(type) {
+			case *types.Interface, *types.Map, *types.Slice:
+				out = append(out, call.Pos())
+				names = append(names, f.Name())
+			}
+			return true
+		})
+		return true
+	})
+	return
+}
+
 func shallowStores(info *types.Info, node ast.Node) []token.Pos {
 	var out []token.Pos
 	ast.Inspect(node, func(n ast.Node) bool {
@@ -263,6 +327,8 @@ func copySwitchArms(prog *Program, rep *Report, rel, fname string) int {
 			}
 			if sh := shallowStores(info, cc); len(sh) > 0 {
 				rep.Violate(Finding{Rule: "D-elem", Key: key + ":element", Pos: prog.Pos(sh[0]), Msg: "an element is stored into the copy as it is (the loop's range value): nested containers are shared between the copy and the original"})
+			} else if nc, names := nonCopyingElementCalls(info, pk.Types, cc, info.Defs[fd.Name]); len(nc) > 0 {
+				rep.Violate(Finding{Rule: "D-elem", Key: key + ":element-through-" + names[0], Pos: prog.Pos(nc[0]), Msg: "an element passes through " + names[0] + ", which is neither this copying function nor one of the checked copying functions (" + names[0] + " may return its argument): nested containers are shared between the copy and the original"})
 			} else {
 				rep.Discharge("D-elem", key+":element", prog.Pos(cc.Pos()), "elements pass through a copying call")
 			}
